@@ -16,10 +16,15 @@ package casblob
 //@ pred nChunks(n, cs) = n / cs + ((n % cs != 0) ? 1 : 0)
 
 // What readHeader establishes (and the readers rely on).
+// Quantified clauses range over ABSOLUTE positions p of the backing array of
+// h.chunkOffsets (oLo(h) <= p < oHi(h)), so that solver patterns contain no arithmetic.
+//@ pred oLo(h) = offset(h.chunkOffsets)
+//@ pred oHi(h) = offset(h.chunkOffsets) + len(h.chunkOffsets)
+//@ pred oAt(h, p) = elems(h.chunkOffsets)[p]
 //@ pred wfHeader(h) = h != nil && nOffs(h) >= 2 && h.uncompressedSize > 0 &&
-//@   (forall i Int, j Int :: (0 <= i && i < j && j < nOffs(h)) ==> offs(h, i) < offs(h, j)) &&
-//@   (forall k Int :: (0 <= k && k < nOffs(h)) ==> (0 <= offs(h, k) && offs(h, k) <= 140737488355328)) &&
-//@   (forall m Int :: (0 <= m && m + 1 < nOffs(h)) ==> (0 < offs(h, m + 1) - offs(h, m) && offs(h, m + 1) - offs(h, m) <= 140737488355328)) &&
+//@   (forall p Int, q Int :: (oLo(h) <= p && p < q && q < oHi(h)) ==> oAt(h, p) < oAt(h, q)) &&
+//@   (forall p Int :: (oLo(h) <= p && p < oHi(h)) ==> (0 <= oAt(h, p) && oAt(h, p) <= 140737488355328)) &&
+//@   (forall p Int :: (oLo(h) <= p && p + 1 < oHi(h)) ==> (0 < oAt(h, p + 1) - oAt(h, p) && oAt(h, p + 1) - oAt(h, p) <= 140737488355328)) &&
 //@   (h.compression == 1 ==> (h.chunkSize > 0 && nOffs(h) - 1 == nChunks(h.uncompressedSize, h.chunkSize)))
 
 //@ func (h *header) size() int64
@@ -38,21 +43,21 @@ package casblob
 //@   ensures[C02,C14,C20] accepted: result1 == nil ==> wfHeader(result0)
 //@   ensures[C14] rejected: result1 != nil ==> result0 == nil
 //@   loop 0 invariant idx: 0 <= i && i <= numOffsets && numOffsets == len(h.chunkOffsets) && numOffsets >= 2
-//@   loop 0 invariant incr: forall a Int, b Int :: (0 <= a && a < b && b < i) ==> offs(h, a) < offs(h, b)
+//@   loop 0 invariant incr: forall a Int, b Int :: (oLo(h) <= a && a < b && b < oLo(h) + i) ==> oAt(h, a) < oAt(h, b)
 //@   loop 0 invariant prev: (i == 0 ==> prevOffset == 0 - 1) && (i > 0 ==> prevOffset == offs(h, i - 1))
-//@   loop 0 invariant bound: forall a Int :: (0 <= a && a < i) ==> (0 <= offs(h, a) && offs(h, a) <= prevOffset)
+//@   loop 0 invariant bound: forall a Int :: (oLo(h) <= a && a < oLo(h) + i) ==> (0 <= oAt(h, a) && oAt(h, a) <= prevOffset)
 //@   loop 0 modifies nothing
 
 //@ func GetUncompressedReadCloser(zstd zstdimpl.ZstdImpl, f *os.File, expectedSize int64, offset int64) (io.ReadCloser, error)
 //@   serves C02 C14 C20
 //@   requires f != nil && zstd != nil
-//@   requires[C02] offset: 0 <= offset && (expectedSize != 0 - 1 ==> offset < expectedSize) && (expectedSize == 0 - 1 ==> offset == 0)
+//@   requires[C02] offset: offset == 0 || (0 < offset && offset < expectedSize)
 //@   ensures[C14] oneof: (result1 == nil) <==> (result0 != nil)
 
 //@ func GetZstdReadCloser(zstd zstdimpl.ZstdImpl, f *os.File, expectedSize int64, offset int64) (io.ReadCloser, error)
 //@   serves C02 C14 C20
 //@   requires f != nil && zstd != nil
-//@   requires[C02] offset: 0 <= offset && (expectedSize != 0 - 1 ==> offset < expectedSize) && (expectedSize == 0 - 1 ==> offset == 0)
+//@   requires[C02] offset: offset == 0 || (0 < offset && offset < expectedSize)
 //@   ensures[C14] oneof: (result1 == nil) <==> (result0 != nil)
 
 //@ func GetLegacyZstdReadCloser(zstd zstdimpl.ZstdImpl, f *os.File) (io.ReadCloser, error)
